@@ -53,6 +53,15 @@ fn label_doc(cx: &mut Ctx, label: &str, d: &mut AutoCommit, reference: &(serde_j
     check_h3(cx, d, label)
 }
 
+/// replay aid (VERIF_C01_DUMP=<dir>): the document and the change of the latest one-by-one delivery
+fn dump_step(d: &mut AutoCommit, c: &Change, path: &str) {
+    if let Ok(dir) = std::env::var("VERIF_C01_DUMP") {
+        let _ = std::fs::write(format!("{dir}/doc.bin"), d.clone().save());
+        let _ = std::fs::write(format!("{dir}/change.bin"), c.raw_bytes());
+        let _ = std::fs::write(format!("{dir}/path.txt"), path);
+    }
+}
+
 impl Check for C01 {
     fn id(&self) -> &'static str {
         "C01"
@@ -108,6 +117,7 @@ impl Check for C01 {
             order_sig ^= fnv(format!("{:?}", order.iter().map(|c| c.hash()).collect::<Vec<_>>()).as_bytes());
             let mut d = fresh(enc, 92);
             for c in &order {
+                dump_step(&mut d, c, "b");
                 if let Err(e) = d.apply_changes([c.clone()]) {
                     cx.violation("apply-valid-change-failed", format!("apply_changes of a valid change failed: {e}"), json!({"change": c.hash().to_string(), "log": tail(&w.log, 30)}));
                     return;
@@ -140,6 +150,7 @@ impl Check for C01 {
             let mut d = fresh(enc, 94);
             let mut queued = 0;
             for c in changes.iter().rev() {
+                dump_step(&mut d, c, "d");
                 if let Err(e) = d.apply_changes([c.clone()]) {
                     cx.violation("apply-valid-change-failed", format!("apply_changes (reverse order) of a valid change failed: {e}"), json!({"change": c.hash().to_string(), "log": tail(&w.log, 30)}));
                     return;
